@@ -510,9 +510,8 @@ def kernel_cache_dir():
     it into C++: a change of the OKL front end (e.g. @tile) would be hidden by binaries cached earlier.  The cache
     directory of this check is therefore keyed by the sources that decide what a cached binary contains."""
     h = hashlib.sha1()
-    roots = ["src/occa/internal/lang", "src/occa/internal/modes/serial", "src/occa/internal/modes/openmp",
-             "src/occa/internal/core", "src/occa/internal/io", "src/core", "src/experimental", "src/functional",
-             "src/loops", "include/occa/defines", "include/occa/experimental"]
+    # (what the functional/loops code puts INTO the OKL source and the properties is hashed by occa itself)
+    roots = ["src/occa/internal/lang", "src/occa/internal/modes/serial", "src/occa/internal/modes/openmp"]
     for root in roots:
         for d, _, fs in sorted(os.walk(os.path.join(REPO, root))):
             for f in sorted(fs):
